@@ -180,13 +180,22 @@ TxOf(ev) ==
       payer |-> IF Get(ev, "payer", "") # "" THEN ev.payer ELSE req[1],
       badSig |-> Get(ev, "badSig", FALSE), badSeq |-> Get(ev, "badSeq", FALSE)]
 
+\* entities that messages of a rolled-back transaction had created before a later message failed: ids and stream
+\* pairs that exist only in the discarded branch.  Observation variable st.aux.ghost (never compared with the code):
+\* it lets the bounded models aim schedules at operations that meet such a key again (Goals.tla).
+Ghosts(s0, s1) ==
+     UNION { { <<k, s1[k].ch[i].id, s1[k].ch[i].owner>> : i \in (DOMAIN s1[k].ch) \ (DOMAIN s0[k].ch) } : k \in {"wrk", "bcn"} }
+  \cup { <<"po", s1.ent.po[i].id, s1.ent.po[i].pur>> : i \in (DOMAIN s1.ent.po) \ (DOMAIN s0.ent.po) }
+  \cup { <<"str", key, "-">> : key \in (DOMAIN s1.str.s) \ (DOMAIN s0.str.s) }
+
 DeliverTx(st, ev) ==
   LET tx == TxOf(ev) IN
   IF tx.msgs = <<>> \/ \E i \in DOMAIN tx.msgs : ~BasicOk(st, tx.msgs[i]) THEN Fail(st)
   ELSE LET a == Ante(st, tx) IN
        IF ~a.ok THEN Fail(st)
        ELSE LET r == RunMsgs(a.st, tx.msgs, <<>>) IN
-            IF r.ok THEN r ELSE [r EXCEPT !.st = a.st, !.out = <<>>]     \* ante effects stay
+            IF r.ok THEN r
+            ELSE [r EXCEPT !.st = [a.st EXCEPT !.aux.ghost = @ \cup Ghosts(a.st, r.st)], !.out = <<>>]     \* ante effects stay
 
 ------------------------------------------------------------------------------
 (* CheckTx admission, the ideal rule of C06: the fee offered in the module's *)
